@@ -111,6 +111,10 @@ type World struct {
 	mEvCacheH     uint64
 	FaultsStoppedAt int64
 	Settled       bool
+	Forked        bool
+	ForkAt        int
+	ForkHeight    int64
+	Notes         []*Violation
 	pend          map[string][2]uint64
 	preEndBal     map[string]sdk.Int
 	booting       bool
@@ -390,3 +394,15 @@ func mustUint(s string) uint64 {
 
 
 func TempAddr() sdk.AccAddress { return mhub2types.TempAddress }
+
+// Note records a violation without stopping the run (several independent findings per run, C15).
+func (w *World) Note(prop, oracle, site, msg string) {
+	v := &Violation{Property: prop, Oracle: oracle, Site: site, Message: msg, Height: w.N().Height, IntentIx: w.CurIntent}
+	for _, o := range w.Notes {
+		if o.Signature() == v.Signature() {
+			return
+		}
+	}
+	w.Notes = append(w.Notes, v)
+	w.Logf("NOTE %s: %s", v.Signature(), msg)
+}
